@@ -90,7 +90,7 @@ def main():
             na.append({"property_id": pid, "reason": PENDING.get(pid, "check not yet built in this commit (construction in progress; see DESIGN.md §4 for the planned generator and oracle)")})
     man = {
         "version": 1,
-        "setup_cmd": "cd /verif/harness && CARGO_NET_OFFLINE=true cargo build --release --offline",
+        "setup_cmd": "cd /verif/harness && CARGO_NET_OFFLINE=true cargo build --release --offline && mkdir -p /verif/py/build && cd /repo && CARGO_NET_OFFLINE=true cargo build --features python --lib --offline --target-dir /verif/py/build/target",
         "hooks": {
             "guard": "ryan_d_gast_ivp_verif",
             "enable": "no hooks are needed: every observation point is public API (solve_ivp, solver builders, SolOut, IVP, Matrix, lu_decomp/lin_solve, the python cargo feature); the cfg name is reserved and unused",
